@@ -251,3 +251,83 @@ Example short_rendering_negative_offset :
   process_docstring (fun k => match k with KSymbol => txt "x" | KLatex => txt "y" end) (txt "a:laws:symbol::b:laws:latex::c")
   = txt "axbyc".
 Proof. vm_compute. reflexivity. Qed.
+
+(* ------------------------------------------------------------------------------------------- *)
+(* the file-writing step: afterwards the page holds exactly the new text, whatever it held before *)
+(* ------------------------------------------------------------------------------------------- *)
+
+Lemma text_eqb_eq : forall a b, text_eqb a b = true -> a = b.
+Proof.
+  induction a as [|x a IH]; intros [|y b] H; cbn in H; try discriminate; [reflexivity|].
+  apply andb_true_iff in H. destruct H as [H1 H2]. apply Ascii.eqb_eq in H1. subst y. f_equal. now apply IH.
+Qed.
+
+Lemma fops_eqb_eq : forall a b, fops_eqb a b = true -> a = b.
+Proof.
+  induction a as [|x a IH]; intros [|y b] H; cbn in H; try discriminate; [reflexivity|].
+  apply andb_true_iff in H. destruct H as [H1 H2]. f_equal; [destruct x, y; cbn in H1; try discriminate; reflexivity|now apply IH].
+Qed.
+
+Lemma write_at_empty new : write_at 0 new [] = new.
+Proof. unfold write_at. cbn. destruct (List.length new); cbn; apply app_nil_r. Qed.
+
+Lemma exact_missing_sound ops : In ops exact_when_missing -> forall new, run_fops new ops false ([], 0) = Some new.
+Proof.
+  intros H new. cbn in H. destruct H as [<-|[<-|[]]]; cbn -[write_at]; now rewrite write_at_empty.
+Qed.
+
+Lemma exact_exists_sound ops : In ops exact_when_exists -> forall new c, run_fops new ops true (c, 0) = Some new.
+Proof.
+  intros H new c. cbn in H. destruct H as [<-|[<-|[<-|[<-|[<-|[]]]]]]; cbn -[write_at text_eqb]; try (now rewrite write_at_empty).
+  - destruct (text_eqb c new) eqn:E; [apply text_eqb_eq in E; now subst|now rewrite write_at_empty].
+  - destruct (text_eqb c new) eqn:E; [apply text_eqb_eq in E; now subst|now rewrite write_at_empty].
+Qed.
+
+Lemma known_exact_sound_lemma : forall w, known_exact w = true -> forall old new, file_write w old new = Some new.
+Proof.
+  intros w H old new. unfold known_exact in H. apply andb_true_iff in H. destruct H as [H1 H2].
+  apply existsb_exists in H1. destruct H1 as (o1 & I1 & E1). apply fops_eqb_eq in E1.
+  apply existsb_exists in H2. destruct H2 as (o2 & I2 & E2). apply fops_eqb_eq in E2.
+  destruct old as [c|]; cbn [file_write].
+  - rewrite E2. now apply exact_exists_sound.
+  - rewrite E1. now apply exact_missing_sound.
+Qed.
+
+Lemma dir_get_set p q t d : dir_get p (dir_set q t d) = if String.eqb p q then Some t else dir_get p d.
+Proof.
+  induction d as [|[r u] d IH]; cbn; [reflexivity|].
+  destruct (String.eqb q r) eqn:E; cbn.
+  - apply String.eqb_eq in E. subst r. destruct (String.eqb p q); reflexivity.
+  - rewrite IH. destruct (String.eqb p r) eqn:E'; [|reflexivity].
+    apply String.eqb_eq in E'. subst r. destruct (String.eqb p q) eqn:E''; [|reflexivity].
+    apply String.eqb_eq in E''. subst q. rewrite String.eqb_refl in E. discriminate.
+Qed.
+
+Lemma generation_writes_every_page_lemma :
+  forall w, (forall old new, file_write w old new = Some new) ->
+  forall pages d0, NoDup (map fst pages) ->
+    (forall p t, In (p, t) pages -> dir_get p (generate w pages d0) = Some t)
+    /\ (forall q, ~ In q (map fst pages) -> dir_get q (generate w pages d0) = dir_get q d0).
+Proof.
+  intros w Hw. unfold generate. induction pages as [|[p t] pages IH]; intros d0 Hnd; cbn [fold_left map fst].
+  - split; [intros p t []|reflexivity].
+  - cbn [map fst] in Hnd. inversion Hnd as [|? ? Hnot Hnd']; subst.
+    assert (Hs : gen_step w d0 (p, t) = dir_set p t d0) by (unfold gen_step; cbn [fst snd]; now rewrite Hw).
+    rewrite Hs.
+    destruct (IH (dir_set p t d0) Hnd') as [IH1 IH2]. split.
+    + intros p' t' [E|Hin].
+      * inversion E; subst p' t'. rewrite (IH2 p Hnot), dir_get_set, String.eqb_refl. reflexivity.
+      * now apply IH1.
+    + intros q Hq. rewrite IH2 by (intros Hin; apply Hq; now right). rewrite dir_get_set.
+      destruct (String.eqb q p) eqn:E; [|reflexivity]. apply String.eqb_eq in E. subst q. exfalso. apply Hq. now left.
+Qed.
+
+(* the code as it stands: open(path, "w+") and write *)
+Example current_writer_exact : known_exact (mkWriter [FOpenW; FWrite] [FOpenW; FWrite]) = true.
+Proof. reflexivity. Qed.
+
+(* "read, truncate at the current position (= end of file: nothing happens), seek(0), write": a shorter text keeps the old tail *)
+Example truncate_at_eof_keeps_stale_tail :
+  let w := mkWriter [FOpenW; FWrite] [FOpenRPlus; FStopIfEqual; FTruncate; FSeek0; FWrite] in
+  known_exact w = false /\ file_write w (Some (txt "old longer page")) (txt "new") = Some (txt "new longer page").
+Proof. vm_compute. split; reflexivity. Qed.
